@@ -241,6 +241,72 @@ Theorem C05_R4_then_endz :
 Proof. exact auto_atomic_then_endz. Qed.
 Print Assumptions C05_R4_then_endz.
 
+(* lazy loops (processNode "lazy to greedy" + makeLoopAtomic): under the same condition a lazy loop is
+   the atomic GREEDY loop *)
+Theorem C05_R4_auto_atomic_lazy :
+  forall e k o o1 c m n rest,
+    (forall s j, m <= j < loop_run e k o1 c n s -> rw_seq_fails e rest (loop_state o1 s j)) ->
+    rw_eq e (NConcat o (NCharLoop k LLazy o1 c m n :: rest))
+            (NConcat o (NCharLoop k LAtomic o1 c m n :: rest)).
+Proof. exact auto_atomic_lazy. Qed.
+Print Assumptions C05_R4_auto_atomic_lazy.
+
+(* the calculus mirroring canBeMadeAtomic: [cont_fails_in e k o c rest] = the continuation is dead at
+   every state whose next character passes the loop's test; built from the leaf cases above
+   (fails_in_char/multi/charloop/end/eol/endz), the descent to the node guaranteed to follow
+   (fails_in_concat/capture/atomic/group/poslook/loop with min>0/alt on every branch) and stepping over
+   nullable disjoint loops and zero-width tests (cont_fails_skip_charloop0/anchor/empty/bump) *)
+Theorem C05_R4_auto_atomic_by_cont :
+  forall e k o o1 c m n rest, 0 <= m -> cont_fails_in e k o1 c rest ->
+    rw_eq e (NConcat o (NCharLoop k LGreedy o1 c m n :: rest)) (NConcat o (NCharLoop k LAtomic o1 c m n :: rest)) /\
+    rw_eq e (NConcat o (NCharLoop k LLazy o1 c m n :: rest)) (NConcat o (NCharLoop k LAtomic o1 c m n :: rest)).
+Proof. exact auto_atomic_by_cont. Qed.
+Print Assumptions C05_R4_auto_atomic_by_cont.
+
+Theorem C05_R4_cont_calculus :
+  forall e k o c,
+    (forall x rest, fails_in e k o c x -> cont_fails_in e k o c (x :: rest)) /\
+    (forall k' l' o' c' n' rest, is_rtl o' = is_rtl o -> tests_disjoint e k c k' c' ->
+        cont_fails_in e k o c rest -> cont_fails_in e k o c (NCharLoop k' l' o' c' 0 n' :: rest)) /\
+    (forall a rest, cont_fails_in e k o c rest -> cont_fails_in e k o c (NAnchor a :: rest)) /\
+    (forall o' x l, fails_in e k o c x -> fails_in e k o c (NConcat o' (x :: l))) /\
+    (forall o' g u x, fails_in e k o c x -> fails_in e k o c (NCapture o' g u x)) /\
+    (forall x, fails_in e k o c x -> fails_in e k o c (NAtomic x)) /\
+    (forall o' x, fails_in e k o c x -> fails_in e k o c (NPosLook o' x)) /\
+    (forall lazy o' m' n' x, m' <> 0 -> fails_in e k o c x -> fails_in e k o c (NLoop lazy o' m' n' x)) /\
+    (forall o' l, Forall (fails_in e k o c) l -> fails_in e k o c (NAlternate o' l)).
+Proof.
+  intros e k o c. split; [apply cont_fails_head|]. split; [apply cont_fails_skip_charloop0|].
+  split; [apply cont_fails_skip_anchor|]. split; [intros; apply fails_in_concat; assumption|].
+  split; [intros; apply fails_in_capture; assumption|]. split; [apply fails_in_atomic|].
+  split; [intros; apply fails_in_poslook; assumption|]. split; [intros; apply fails_in_loop; assumption|].
+  intros; apply fails_in_alt; assumption.
+Qed.
+Print Assumptions C05_R4_cont_calculus.
+
+(* \b (or the ECMAScript \b) after a loop of word characters with min >= 1; the state must lie inside
+   the text (pos >= 0), as every state reached by a search does *)
+Theorem C05_R4_then_boundary :
+  forall e k o o1 c m n a w rest,
+    (a = ABoundary /\ w = is_word e) \/ (a = AECMABoundary /\ w = is_eword e) ->
+    1 <= m -> is_rtl o1 = false -> (forall ch, char_test e k c ch = true -> w ch = true) ->
+    forall f s, 0 <= pos s ->
+      sem e f (NConcat o (NCharLoop k LGreedy o1 c m n :: NAnchor a :: rest)) s =
+      sem e f (NConcat o (NCharLoop k LAtomic o1 c m n :: NAnchor a :: rest)) s.
+Proof. exact auto_atomic_then_boundary. Qed.
+Print Assumptions C05_R4_then_boundary.
+
+(* a loop that ENDS a nested group (processNode's descent through captures — balancing ones included —
+   groups, last children of concatenations, branches of alternations and conditionals:
+   Model/Rewrite.atomized): the sub-trees are not equivalent by themselves (the rewritten one has
+   fewer results, rw_prunes), the enclosing concatenations are *)
+Theorem C05_R4_auto_atomic_nested :
+  forall e (P : st -> Prop), pos_pred P ->
+  forall o pre t t' rest, atomized e P t t' -> (forall s, P s -> rw_seq_fails e rest s) ->
+    rw_eq e (NConcat o (pre ++ t :: rest)) (NConcat o (pre ++ t' :: rest)).
+Proof. exact auto_atomic_nested. Qed.
+Print Assumptions C05_R4_auto_atomic_nested.
+
 (* ---------------------------------------------------------------------------------------------- *)
 (* R5  alternations in atomic position (reduceAtomic)                                               *)
 (* ---------------------------------------------------------------------------------------------- *)
@@ -325,6 +391,14 @@ Theorem C05_R6_multi_split :
   forall e o o' u v, is_rtl o = false -> rw_eq e (NMulti o (u ++ v)) (NConcat o' [NMulti o u; NMulti o v]).
 Proof. exact multi_split. Qed.
 Print Assumptions C05_R6_multi_split.
+
+(* inside an atomic group the factored alternation is wrapped again (tree.go:1161-1165, 1241-1245) *)
+Theorem C05_R6_alt_prefix_factor_atomic :
+  forall e o1 o2 o3 o4 o5 p bs, bs <> [] -> single_result e p ->
+    rw_eq e (NAtomic (NAlternate o1 (map (fun a => NConcat o2 (p :: a)) bs)))
+            (NAtomic (NConcat o3 [p; NAtomic (NAlternate o4 (map (NConcat o5) bs))])).
+Proof. exact alt_prefix_factor_atomic. Qed.
+Print Assumptions C05_R6_alt_prefix_factor_atomic.
 
 (* ---------------------------------------------------------------------------------------------- *)
 (* Examples: concrete text / tree where the side condition holds and both sides give the same        *)
@@ -445,4 +519,53 @@ Example C05_ex_balancing :
   let e := rw_ex_env [120] in
   sem e 5 (NCapture 0 1 2 rw_bal_alt) rw_s0 = Ok [{| pos := 1; caps := [(2, []); (1, [(0, 1)])] |}] /\
   sem e 5 (NCapture 0 1 2 (NAtomic rw_bal_alt)) rw_s0 = Ok [].
+Proof. vm_compute. split; reflexivity. Qed.
+
+(* R4 lazy: a*?b on "aabbc" is the atomic greedy a* followed by b *)
+Example C05_ex_R4_lazy :
+  let e := rw_ex_env [97; 97; 98; 98; 99] in
+  rw_positions (sem e 4 (NConcat 0 [NCharLoop COne LLazy 0 97 0 INF; NChar COne 0 98]) rw_s0) = [3] /\
+  rw_positions (sem e 4 (NConcat 0 [NCharLoop COne LAtomic 0 97 0 INF; NChar COne 0 98]) rw_s0) = [3].
+Proof. vm_compute. split; reflexivity. Qed.
+
+(* R4 through a nullable successor: a*b*c on "aabbc"; the continuation b*c is dead wherever an 'a' is next *)
+Example C05_ex_R4_chain :
+  let e := rw_ex_env [97; 97; 98; 98; 99] in
+  let bs := NCharLoop COne LGreedy 0 98 0 INF in
+  cont_fails_in e COne 0 97 [bs; NChar COne 0 99] /\
+  rw_positions (sem e 4 (NConcat 0 [NCharLoop COne LGreedy 0 97 0 INF; bs; NChar COne 0 99]) rw_s0) = [5] /\
+  rw_positions (sem e 4 (NConcat 0 [NCharLoop COne LAtomic 0 97 0 INF; bs; NChar COne 0 99]) rw_s0) = [5].
+Proof.
+  cbv zeta. split; [|vm_compute; split; reflexivity].
+  apply cont_fails_skip_charloop0; [reflexivity | |apply cont_fails_head, fails_in_char; [reflexivity|]];
+    intros ch H; cbn [char_test] in *; apply Z.eqb_eq in H; subst; reflexivity.
+Qed.
+
+(* R4 nested: the group ( x a* ) followed by b, on "xaab": the group alone has fewer results once the loop
+   is atomic, the concatenation has the same *)
+Example C05_ex_R4_nested :
+  let e := rw_ex_env [120; 97; 97; 98] in
+  let grp l := NCapture 0 1 (-1) (NConcat 0 [NChar COne 0 120; NCharLoop COne l 0 97 0 INF]) in
+  atomized e (next_in e COne 0 97) (grp LGreedy) (grp LAtomic) /\
+  rw_positions (sem e 5 (grp LGreedy) rw_s0) = [3; 2; 1] /\ rw_positions (sem e 5 (grp LAtomic) rw_s0) = [3] /\
+  sem e 6 (NConcat 0 [grp LGreedy; NChar COne 0 98]) rw_s0 = Ok [{| pos := 4; caps := [(1, [(0, 3)])] |}] /\
+  sem e 6 (NConcat 0 [grp LAtomic; NChar COne 0 98]) rw_s0 = Ok [{| pos := 4; caps := [(1, [(0, 3)])] |}].
+Proof.
+  cbv zeta. split; [|vm_compute; repeat split; reflexivity].
+  apply AZ_capture. apply (AZ_concat _ _ 0 [NChar COne 0 120]). apply AZ_loop; [lia | auto].
+Qed.
+
+(* R4 boundary: \w+\b on "ab c" *)
+Example C05_ex_R4_boundary :
+  let e := rw_ex_env [97; 98; 32; 99] in
+  rw_positions (sem e 4 (NConcat 0 [NCharLoop CSet LGreedy 0 2 1 INF; NAnchor ABoundary]) rw_s0) = [2] /\
+  rw_positions (sem e 4 (NConcat 0 [NCharLoop CSet LAtomic 0 2 1 INF; NAnchor ABoundary]) rw_s0) = [2].
+Proof. vm_compute. split; reflexivity. Qed.
+
+(* R6 in an atomic group: (?>abc|abd) = (?>ab(?>c|d)) on "abd" *)
+Example C05_ex_R6_atomic :
+  let e := rw_ex_env [97; 98; 100] in
+  let ab := NMulti 0 [97; 98] in
+  rw_positions (sem e 6 (NAtomic (NAlternate 0 [NConcat 0 [ab; NChar COne 0 99]; NConcat 0 [ab; NChar COne 0 100]])) rw_s0) = [3] /\
+  rw_positions (sem e 6 (NAtomic (NConcat 0 [ab; NAtomic (NAlternate 0 [NConcat 0 [NChar COne 0 99]; NConcat 0 [NChar COne 0 100]])])) rw_s0) = [3].
 Proof. vm_compute. split; reflexivity. Qed.
